@@ -370,7 +370,9 @@ func runC10(r *h.Run) {
 			// that they are not mistaken for the records of later lines.
 			// (whatever its class: a JSON line longer than the buffer is logged in
 			// pieces like any other)
-			for off := 0; off <= len(l.Text); off += effBuf {
+			// (the pieces are logged at Debug, panic trace or not: a host logger
+			// above Debug shows none of them)
+			for off := 0; off <= len(l.Text) && rank[logLevel] <= rank["debug"]; off += effBuf {
 				end := off + effBuf
 				if end > len(l.Text) {
 					end = len(l.Text)
